@@ -242,16 +242,17 @@ theorem C19_failed_complete_changes_nothing (c : Cfg) (old : Option Bytes) (m i 
     · rw [h]; cases c.mkdirsFails <;> simp [run, exec, cleanup, initSt]
 
 /-- **A successful `complete_multipart_upload` stores everything.** Every listed part exists and passes the size rule, no
-    fault: the answer is OK, the destination holds the parts concatenated in order, the metadata is the upload's if it has
-    any, the upload record and every listed part file are gone, no temporary file. -/
+    fault: the answer is OK, the destination holds the parts concatenated in order, the metadata is the upload's — none if it
+    has none: a previous object's metadata does not survive (cf67827) —, the checksum record is new (empty), the upload
+    record and every listed part file are gone, no temporary file. -/
 theorem C19_successful_complete (c : Cfg) (old : Option Bytes) (m i : Side) (all : Bytes)
     (hb : allParts c.parts = some all) (h1 : c.mkdirsFails = false) (h2 : c.renameFails = false)
-    (h3 : c.hasMeta = true → c.metaFails = false) :
+    (h3 : c.metaFails = false) (h4 : c.infoFails = false) :
     (run (completeProg c) (initSt old m i)).1 = .ok ∧
     (run (completeProg c) (initSt old m i)).2.dest = some all ∧
     (run (completeProg c) (initSt old m i)).2.tmp = false ∧
-    (run (completeProg c) (initSt old m i)).2.mdata = (if c.hasMeta then .new else m) ∧
-    (run (completeProg c) (initSt old m i)).2.info = i ∧
+    (run (completeProg c) (initSt old m i)).2.mdata = (if c.hasMeta then .new else .absent) ∧
+    (run (completeProg c) (initSt old m i)).2.info = .new ∧
     (run (completeProg c) (initSt old m i)).2.uploadRec = false ∧
     (run (completeProg c) (initSt old m i)).2.partsGone = c.parts.length := by
   rw [completeProg_eq]
@@ -266,7 +267,7 @@ theorem C19_successful_complete (c : Cfg) (old : Option Bytes) (m i : Side) (all
   simp only [↓reduceIte, run, exec]
   rw [run_parts _ c.parts all hb, h1, h2]
   simp only [run, exec, Bool.false_eq_true, ↓reduceIte]
-  rw [run_completePost c h3]
+  rw [run_completePost c h3 h4]
   cases c.hasMeta <;> simp [cleanup, initSt]
 
 /-- **`done()` is guarded to its end.** For all three writing operations: if `create_dir_all(parent)` fails (a parent
